@@ -25,7 +25,7 @@ RULE = ("BFS over operation histories per (shape, leaf kind); at every state eve
         "distinct = distinct (shape, leaf, state, operation) / (format, state, prefix length)")
 ASSUMPTIONS = ["a document 'fails to parse' iff the formatter's own loads() raises on it", "an unreadable include is simulated by an open() that raises PermissionError for that path (sandbox runs as root)"]
 
-LISTED = ("set", "setitem", "setcfg", "itemset")
+LISTED = ("set", "setitem", "setcfg", "setcfg-nv", "itemset")
 
 
 def bounds(tier):
@@ -296,11 +296,17 @@ def _includes(job, ctx):
         for where in ("root", "nested", "chained"):
             for fault, path in (("missing", os.path.join(tmp, "nope.inc")), ("directory", os.path.join(tmp, "adir")), ("unreadable", secret),
                                 ("missing-relative", "nope-rel.inc"), ("unparseable", os.path.join(tmp, "garbage.inc"))):
-                for prior in ("fresh", "assigned", "dynamic"):
+                for prior in ("fresh", "assigned", "dynamic", "env"):
                     if only is not None and only != [fmt, where, fault, prior]:
                         continue
                     real_open(os.path.join(tmp, "garbage.inc"), "wb").write(b"\x00\xff{{{<<not a document")
-                    s = cc.Schema(dynamic=(prior == "dynamic"))
+                    for k in [k for k in os.environ if k.startswith("C06ENV")]:
+                        del os.environ[k]
+                    if prior == "env":
+                        # fields bound to variables that are set; the application has since assigned other values
+                        os.environ["C06ENV_X"] = "5"
+                        os.environ["C06ENV_SUB_X"] = "6"
+                    s = cc.Schema(dynamic=(prior == "dynamic"), **({"env": "C06ENV"} if prior == "env" else {}))
                     s.x = cc.IntField(default=1)
                     s.y = cc.StringField(default="d")
                     if prior == "dynamic":
@@ -321,9 +327,12 @@ def _includes(job, ctx):
                         s.sub.include = cc.IncludeField()
                         tree = {"x": 2, "y": "new", "sub": {"x": 3, "l": [5], "include": path}}
                     cfg = s()
-                    if prior == "assigned":
+                    if prior in ("assigned", "env"):
                         cfg.x = 7
                         cfg.sub.l.append(4)
+                    if prior == "env":
+                        cfg.sub.x = 8
+                        os.environ["C06ENV_X"] = "4"          # ... and the environment has moved on as well
                     if prior == "dynamic":        # fields the configuration gained on the fly, which the document does not name
                         cfg.extra = 42
                         cfg.sub.more = [1, 2]
@@ -338,6 +347,8 @@ def _includes(job, ctx):
                         raised = exc
                     finally:
                         builtins.open = real_open
+                        for k in [k for k in os.environ if k.startswith("C06ENV")]:
+                            del os.environ[k]
                     ctx.transitions += 1
                     ctx.case((fmt, where, fault, prior), "include:%s:%s" % (fault, "raised" if raised else "returned"), True)
                     case = _case(job, [fmt, where, fault, prior])
